@@ -49,6 +49,15 @@ def replay_system(st):
                     bad.append(("C03.exterior-rejected", dict(op=name, **where0), False, True, targets[k]))
         except Exception as ex:
             bad.append(("C03.no-error", dict(op=name, exc=type(ex).__name__, **where0), None, repr(ex)[:300], None))
+    # a single target passed as a 1-D vector: same decision as in the batch
+    try:
+        est1 = dsys.make_estimator(dreye, s)
+        for k in range(0, len(targets), max(1, len(targets) // 5)):
+            a1 = bool(np.asarray(est1.in_hull(B[k].copy())).ravel()[0]) if np.ndim(est1.in_hull(B[k].copy())) else bool(est1.in_hull(B[k].copy()))
+            if "ReceptorEstimator.in_hull" in answers and a1 != bool(answers["ReceptorEstimator.in_hull"][k]):
+                bad.append(("C03.single-target", dict(op="in_hull(1-D)", **where0), bool(answers["ReceptorEstimator.in_hull"][k]), a1, targets[k]))
+    except Exception as ex:
+        bad.append(("C03.no-error", dict(op="in_hull(1-D)", exc=type(ex).__name__, **where0), None, repr(ex)[:300], None))
     # chromatic (L1-normalised) membership
     chrom = st.get("chrom") or []
     nchrom = 0
